@@ -120,6 +120,12 @@ fn main() {
     }
     install_quiet_panic_hook();
     let t0 = Instant::now();
+    if id == "C09" {
+        if let Ok(spec) = std::env::var("C09_SEARCH") {
+            props::c09::child_search(tier, &spec);
+            return;
+        }
+    }
     let prop = match props::get(&id, tier, seed) {
         Some(p) => p,
         None => {
